@@ -145,6 +145,31 @@ func corpus(p *pool, r *hlib.Rng) []*Scenario {
 	wk := tx([]InSpec{{RefTx: -1, Hash: hashN(1), Key: 1}}, []OutSpec{out(5, fa())})
 	wk.CheckSig = false
 	one("wrong-key-nosig", true, corpusBase(p, 6), dc, wk)
+	// ownership is a fact about every INPUT, not about every distinct key: a key repeated inside one
+	// transaction (the holder of key 0 signs alone, MuSig2 over {k0,k0,..}) where one occurrence names
+	// somebody else's output; first / later / middle position; with and without signature check;
+	// control: two outputs really owned by the same key are spendable together
+	fk := func(i, key int) InSpec { return InSpec{RefTx: -1, Hash: hashN(byte(i + 1)), Index: 0, Key: key} }
+	one("repeated-key-second-input-foreign", true, corpusBase(p, 6, 6), dc, tx([]InSpec{in(0), fk(1, 0)}, []OutSpec{out(6, fa()), out(5, fa())}))
+	rkn := tx([]InSpec{in(0), fk(1, 0)}, []OutSpec{out(6, fa()), out(5, fa())})
+	rkn.CheckSig = false
+	one("repeated-key-second-input-foreign-nosig", true, corpusBase(p, 6, 6), dc, rkn)
+	one("repeated-key-first-input-foreign", true, corpusBase(p, 6, 6), dc, tx([]InSpec{fk(1, 0), in(0)}, []OutSpec{out(6, fa()), out(5, fa())}))
+	one("repeated-key-third-input-foreign", true, corpusBase(p, 6, 6, 6), dc, tx([]InSpec{in(0), in(1), fk(2, 1)}, []OutSpec{out(6, fa()), out(6, fa()), out(5, fa())}))
+	ownTwice := []UtxoSpec{{Hash: hashN(1), Den: 6, Owner: p.ki[0].addr}, {Hash: hashN(2), Den: 6, Owner: p.ki[0].addr}, {Hash: hashN(3), Den: 6, Owner: p.ki[1].addr}, {Hash: hashN(4), Den: 6, Owner: p.ki[0].addr}}
+	one("repeated-key-own-outputs-valid", true, ownTwice, dc, tx([]InSpec{fk(0, 0), fk(1, 0)}, []OutSpec{out(6, fa()), out(5, fa())}))
+	one("repeated-key-own-foreign-own", true, ownTwice, dc, tx([]InSpec{fk(0, 0), fk(2, 0), fk(3, 0)}, []OutSpec{out(6, fa()), out(6, fa()), out(5, fa())}))
+	one("repeated-key-own-own-foreign", true, ownTwice, dc, tx([]InSpec{fk(0, 0), fk(1, 0), fk(2, 0)}, []OutSpec{out(6, fa()), out(6, fa()), out(5, fa())}))
+	// ... every other per-input condition on a later input carrying an already seen key: locked, denomination, unknown
+	ownLocked := []UtxoSpec{{Hash: hashN(1), Den: 6, Owner: p.ki[0].addr}, {Hash: hashN(2), Den: 6, Owner: p.ki[0].addr, Lock: 2000}, {Hash: hashN(3), Den: 15, Owner: p.ki[0].addr}}
+	one("repeated-key-second-input-locked", true, ownLocked, dc, tx([]InSpec{fk(0, 0), fk(1, 0)}, []OutSpec{out(6, fa()), out(5, fa())}))
+	one("repeated-key-second-input-denomination-15", true, ownLocked, dc, tx([]InSpec{fk(0, 0), fk(2, 0)}, []OutSpec{out(6, fa()), out(5, fa())}))
+	one("repeated-key-second-input-unknown", true, ownLocked, dc, tx([]InSpec{fk(0, 0), fk(7, 0)}, []OutSpec{out(6, fa()), out(5, fa())}))
+	// ... and not once per key per block / per chain either
+	okFirst := tx([]InSpec{in(0)}, []OutSpec{out(5, fa())})
+	one("wrong-key-after-valid-use-of-the-key-in-block", true, corpusBase(p, 6, 6), dc, okFirst, tx([]InSpec{fk(1, 0)}, []OutSpec{out(5, fa())}))
+	cs = append(cs, &Scenario{Kind: "proc", Name: "wrong-key-after-valid-use-of-the-key-previous-block", Tracks: true, Keys: p.keys, Base: corpusBase(p, 6, 6),
+		Blocks: []BlockSpec{{Ctx: dc, Txs: []TxSpec{okFirst}}, {Ctx: dc, Txs: []TxSpec{tx([]InSpec{fk(1, 0)}, []OutSpec{out(5, fa())})}}}})
 	// key whose address is in the Quai ledger
 	qb := []UtxoSpec{{Hash: hashN(1), Den: 6, Owner: p.ki[nKeys].addr}}
 	one("quai-ledger-key", true, qb, dc, tx([]InSpec{{RefTx: -1, Hash: hashN(1), Key: nKeys}}, []OutSpec{out(5, fa())}))
@@ -158,6 +183,18 @@ func corpus(p *pool, r *hlib.Rng) []*Scenario {
 	os := tx([]InSpec{in(0)}, []OutSpec{out(5, fa())})
 	os.Sign = "other"
 	one("signed-by-other-key", true, corpusBase(p, 6), dc, os)
+	// the right keys are carried, but only some of their holders signed (aggregate of a strict subset)
+	for _, sg := range []string{"drop-last", "drop-first"} {
+		ps := tx([]InSpec{in(0), in(1)}, []OutSpec{out(6, fa()), out(5, fa())})
+		ps.Sign = sg
+		one("musig-2-keys-signed-"+sg, true, corpusBase(p, 6, 6), dc, ps)
+		ps3 := tx([]InSpec{in(0), in(1), in(2)}, []OutSpec{out(6, fa()), out(6, fa()), out(5, fa())})
+		ps3.Sign = sg
+		one("musig-3-keys-signed-"+sg, true, corpusBase(p, 6, 6, 6), dc, ps3)
+	}
+	psr := tx([]InSpec{fk(0, 0), fk(1, 0)}, []OutSpec{out(6, fa()), out(5, fa())})
+	psr.Sign = "drop-last"
+	one("repeated-key-signed-once", true, ownTwice, dc, psr)
 	ns := os
 	ns.CheckSig = false
 	one("bad-signature-not-checked", true, corpusBase(p, 6), dc, ns)
@@ -294,6 +331,38 @@ func corpus(p *pool, r *hlib.Rng) []*Scenario {
 	wone("worker-failed-tx-keeps-inputs", corpusBase(p, 6, 6), dc,
 		tx([]InSpec{in(0), in(1)}, []OutSpec{out(15, fa())}), tx([]InSpec{in(0)}, []OutSpec{out(5, fa())}))
 	wone("worker-wrong-key-not-checked", corpusBase(p, 6), dc, wk)
+	// three and more pool transactions spending one outpoint (the pool checks inputs against the committed set only):
+	// exactly one may enter the pending block, whatever is rejected in between; interleaved with independent
+	// ones; conflict on the first / a later input of a multi-input transaction; two conflict groups; a
+	// transaction naming the outpoint twice between two spenders
+	sp := func(ins []InSpec, dens ...uint8) TxSpec {
+		var os []OutSpec
+		for _, d := range dens {
+			os = append(os, out(d, fa()))
+		}
+		return tx(ins, os)
+	}
+	wone("worker-triple-spend", corpusBase(p, 6), dc, sp([]InSpec{in(0)}, 5), sp([]InSpec{in(0)}, 5, 4), sp([]InSpec{in(0)}, 5, 4, 3))
+	wone("worker-quintuple-spend", corpusBase(p, 6), dc, sp([]InSpec{in(0)}, 5), sp([]InSpec{in(0)}, 5, 4), sp([]InSpec{in(0)}, 5, 4, 3),
+		sp([]InSpec{in(0)}, 4, 4), sp([]InSpec{in(0)}, 4, 3))
+	wone("worker-triple-spend-interleaved", corpusBase(p, 6, 6, 6), dc, sp([]InSpec{in(0)}, 5), sp([]InSpec{in(1)}, 5), sp([]InSpec{in(0)}, 5, 4),
+		sp([]InSpec{in(2)}, 5), sp([]InSpec{in(0)}, 5, 4, 3))
+	wone("worker-triple-spend-conflict-on-later-input", corpusBase(p, 6, 6, 6), dc, sp([]InSpec{in(0)}, 5), sp([]InSpec{in(1), in(0)}, 6, 5),
+		sp([]InSpec{in(2), in(0)}, 6, 5), sp([]InSpec{in(1)}, 5))
+	wone("worker-triple-spend-conflict-on-first-input", corpusBase(p, 6, 6, 6), dc, sp([]InSpec{in(0), in(1)}, 6, 5), sp([]InSpec{in(0), in(2)}, 6, 5),
+		sp([]InSpec{in(0)}, 5), sp([]InSpec{in(2)}, 5))
+	wone("worker-two-conflict-groups", corpusBase(p, 6, 6), dc, sp([]InSpec{in(0)}, 5), sp([]InSpec{in(1)}, 5), sp([]InSpec{in(0)}, 5, 4),
+		sp([]InSpec{in(1)}, 5, 4), sp([]InSpec{in(1)}, 5, 3), sp([]InSpec{in(0)}, 5, 3))
+	wone("worker-spend-twice-in-tx-between-spenders", corpusBase(p, 6), dc, sp([]InSpec{in(0)}, 5), dbl, sp([]InSpec{in(0)}, 5, 4))
+	wone("worker-spend-twice-in-tx-then-spender", corpusBase(p, 6), dc, dbl, sp([]InSpec{in(0)}, 5, 4), sp([]InSpec{in(0)}, 5, 3))
+	// a spender rejected for another reason (output denomination / fee / ETX limit) between two spenders
+	wone("worker-triple-spend-middle-fails-otherwise", corpusBase(p, 6, 6), dc, sp([]InSpec{in(0)}, 5), sp([]InSpec{in(0), in(1)}, 15),
+		sp([]InSpec{in(0)}, 5, 4), sp([]InSpec{in(1)}, 6), sp([]InSpec{in(0)}, 4))
+	wone("worker-triple-spend-etx-limit", corpusBase(p, 6, 6), lr, sp([]InSpec{in(0)}, 5), tx([]InSpec{in(0)}, []OutSpec{out(4, p.extRegion[0]), out(4, p.extRegion[1])}),
+		sp([]InSpec{in(0)}, 5, 4))
+	// the pool's ownership check is per input too
+	wone("worker-pool-repeated-key-foreign-input", corpusBase(p, 6, 6), dc, tx([]InSpec{in(0), fk(1, 0)}, []OutSpec{out(6, fa()), out(5, fa())}))
+	wone("worker-pool-repeated-key-own-outputs", ownTwice, dc, tx([]InSpec{fk(0, 0), fk(1, 0)}, []OutSpec{out(6, fa()), out(5, fa())}))
 	wone("worker-merge-after-failure", mergeBase, dc, tx([]InSpec{{RefTx: -1, Hash: hashN(77), Key: 0}}, []OutSpec{out(4, fa())}), mg)
 	wone("worker-merge-after-retry-class-failure", mergeBase, lr,
 		tx([]InSpec{in(0)}, []OutSpec{out(4, p.extRegion[0]), out(4, p.extRegion[1])}), mg)
@@ -343,6 +412,7 @@ type gen struct {
 	r      *hlib.Rng
 	p      *pool
 	mirror []mirrorEntry // the generator's own idea of the unspent set
+	spent  []mirrorEntry // entries consumed by the expected-valid transactions of the current block, in order
 	ntx    int
 }
 
@@ -474,14 +544,20 @@ func (g *gen) splitDen(d uint8) []uint8 {
 	return out
 }
 
-// validTx builds a transaction the generator expects to be accepted; nil if nothing is spendable.
-func (g *gen) validTx(height uint64, firstInBlock bool) *TxSpec {
+// spendable lists the indices of mirror entries a pool key can spend at this height.
+func (g *gen) spendable(height uint64) []int {
 	var cand []int
 	for i, m := range g.mirror {
 		if m.owner >= 0 && m.lock <= height && m.den <= types.MaxDenomination {
 			cand = append(cand, i)
 		}
 	}
+	return cand
+}
+
+// validTx builds a transaction the generator expects to be accepted; nil if nothing is spendable.
+func (g *gen) validTx(height uint64, firstInBlock bool) *TxSpec {
+	cand := g.spendable(height)
 	if len(cand) == 0 {
 		return nil
 	}
@@ -494,12 +570,50 @@ func (g *gen) validTx(height uint64, firstInBlock bool) *TxSpec {
 		j := i + g.r.Intn(len(cand)-i)
 		cand[i], cand[j] = cand[j], cand[i]
 	}
-	chosen := cand[:nin]
+	chosen := make([]mirrorEntry, nin)
+	for i, ci := range cand[:nin] {
+		chosen[i] = g.mirror[ci]
+	}
+	return g.buildFrom(chosen, firstInBlock)
+}
+
+// respendTx builds an otherwise well-formed transaction that consumes again an outpoint already consumed by an
+// expected-valid transaction of the current block (biased towards the FIRST consumed one, so that three and
+// more mutually conflicting transactions pile up on one outpoint), alone or together with still unspent
+// entries placed before or after it.
+func (g *gen) respendTx(height uint64) *TxSpec {
+	if len(g.spent) == 0 {
+		return nil
+	}
+	x := g.spent[0]
+	if g.r.Chance(35) {
+		x = g.spent[g.r.Intn(len(g.spent))]
+	}
+	chosen := []mirrorEntry{x}
+	if cand := g.spendable(height); len(cand) > 0 && g.r.Chance(35) {
+		y := g.mirror[cand[g.r.Intn(len(cand))]]
+		if g.r.Chance(50) {
+			chosen = []mirrorEntry{y, x}
+		} else {
+			chosen = []mirrorEntry{x, y}
+		}
+	}
+	if g.r.Chance(10) && len(g.spent) >= 2 { // two already consumed outpoints
+		chosen = append(chosen, g.spent[len(g.spent)-1])
+		if chosen[0].ref.RefTx == chosen[len(chosen)-1].ref.RefTx && chosen[0].ref.Index == chosen[len(chosen)-1].ref.Index && string(chosen[0].ref.Hash) == string(chosen[len(chosen)-1].ref.Hash) {
+			chosen = chosen[:len(chosen)-1]
+		}
+	}
+	return g.buildFrom(chosen, false)
+}
+
+// buildFrom builds a transaction that consumes exactly the given entries (with their owners' keys), outputs
+// worth the inputs minus the smallest piece.
+func (g *gen) buildFrom(chosen []mirrorEntry, firstInBlock bool) *TxSpec {
 	t := &TxSpec{CheckSig: g.r.Chance(70), Sign: "ok"}
 	usedOwner := map[int]bool{}
 	var dens []uint8
-	for _, ci := range chosen {
-		m := g.mirror[ci]
+	for _, m := range chosen {
 		t.Ins = append(t.Ins, m.ref)
 		usedOwner[m.owner] = true
 		dens = append(dens, g.splitDen(m.den)...)
@@ -576,7 +690,8 @@ func (g *gen) commitTx(t *TxSpec, idx int, ptn uint64) {
 	for _, in := range t.Ins {
 		for i, m := range g.mirror {
 			if m.ref.RefTx == in.RefTx && m.ref.Index == in.Index && string(m.ref.Hash) == string(in.Hash) {
-				g.mirror = append(g.mirror[:i], g.mirror[i+1:]...)
+				g.spent = append(g.spent, m)
+				g.mirror = append(g.mirror[:i:i], g.mirror[i+1:]...)
 				break
 			}
 		}
@@ -598,7 +713,8 @@ func (g *gen) commitTx(t *TxSpec, idx int, ptn uint64) {
 // mutate turns an expected-valid transaction into an adversarial one; returns the kind.
 func (g *gen) mutate(t *TxSpec, prev []TxSpec) string {
 	kinds := []string{"dup-input", "reuse-earlier-input", "wrong-key", "bad-sig", "other-sig", "den-high", "out-exceeds", "zero-fee",
-		"addr-reuse", "dup-out-addr", "bad-chain", "bad-data", "out-lock", "quai-elsewhere", "unknown-outpoint", "locked", "no-inputs", "merge-up", "two-conv-targets"}
+		"addr-reuse", "dup-out-addr", "bad-chain", "bad-data", "out-lock", "quai-elsewhere", "unknown-outpoint", "locked", "no-inputs", "merge-up", "two-conv-targets",
+		"repeat-key-foreign", "repeat-key-foreign", "sig-subset"}
 	k := kinds[g.r.Intn(len(kinds))]
 	switch k {
 	case "dup-input":
@@ -676,6 +792,39 @@ func (g *gen) mutate(t *TxSpec, prev []TxSpec) string {
 	case "merge-up":
 		// many small outputs replaced by one large one of at most the same value is a merge: 2 x d -> d+1 where exact
 		t.Outs = []OutSpec{{Den: 14, Addr: g.p.freshQi(g.r)}}
+	case "repeat-key-foreign":
+		// the holder of the key of input j adds somebody else's spendable output, carried with HIS key again, at a
+		// later position, (half of the time) takes its value, and signs alone with the keys the inputs carry
+		j := g.r.Intn(len(t.Ins))
+		var cand []mirrorEntry
+		for _, m := range g.mirror {
+			dup := false
+			for _, in := range t.Ins {
+				if m.ref.RefTx == in.RefTx && m.ref.Index == in.Index && string(m.ref.Hash) == string(in.Hash) {
+					dup = true
+				}
+			}
+			if !dup && m.owner >= 0 && m.owner != t.Ins[j].Key && m.lock <= 1000 && m.den <= types.MaxDenomination {
+				cand = append(cand, m)
+			}
+		}
+		if len(cand) == 0 {
+			return "none"
+		}
+		m := cand[g.r.Intn(len(cand))]
+		stolen := m.ref
+		stolen.Key = t.Ins[j].Key
+		pos := j + 1 + g.r.Intn(len(t.Ins)-j)
+		t.Ins = append(t.Ins[:pos:pos], append([]InSpec{stolen}, t.Ins[pos:]...)...)
+		if g.r.Chance(50) {
+			t.Outs = append(t.Outs, OutSpec{Den: m.den, Addr: g.p.freshQi(g.r)})
+		}
+	case "sig-subset":
+		if len(t.Ins) < 2 {
+			return "none"
+		}
+		t.CheckSig = true
+		t.Sign = []string{"drop-last", "drop-first"}[g.r.Intn(2)]
 	case "two-conv-targets":
 		if len(t.Outs) < 2 {
 			return "none"
@@ -703,9 +852,15 @@ func randomScenario(r *hlib.Rng, p *pool, kind string, rep *hlib.Report) *Scenar
 	for b := 0; b < nblocks; b++ {
 		blk := BlockSpec{Ctx: g.ctx()}
 		ntx := 1 + r.Pick(3, 4, 3, 2)
+		conflicts := false // a pool with many transactions spending the same outpoints
 		if kind == "worker" {
 			ntx = 2 + r.Intn(5)
+			if r.Chance(50) {
+				conflicts = true
+				ntx = 4 + r.Intn(5)
+			}
 		}
+		g.spent = nil
 		mutAt := -1
 		if r.Chance(40) {
 			mutAt = r.Intn(ntx)
@@ -713,12 +868,20 @@ func randomScenario(r *hlib.Rng, p *pool, kind string, rep *hlib.Report) *Scenar
 		snapshot := append([]mirrorEntry{}, g.mirror...)
 		rejected := false
 		for i := 0; i < ntx; i++ {
-			t := g.validTx(blk.Ctx.Height, i == 0)
+			var t *TxSpec
+			mk := "valid"
+			if conflicts && len(g.spent) > 0 && r.Chance(55) {
+				t = g.respendTx(blk.Ctx.Height)
+				mk = "conflict"
+			}
+			if t == nil {
+				mk = "valid"
+				t = g.validTx(blk.Ctx.Height, i == 0)
+			}
 			if t == nil {
 				break
 			}
-			mk := "valid"
-			if i == mutAt || (kind == "worker" && r.Chance(25)) {
+			if mk == "valid" && (i == mutAt || (kind == "worker" && r.Chance(25))) {
 				mk = g.mutate(t, prev)
 			}
 			if kind == "worker" {
